@@ -1071,6 +1071,15 @@ pub fn array_sort(
             .collect()
     };
 
+    // The copies live in a Rust Vec while the comparator (or toString) runs
+    // script code that may drop them from the array: keep them rooted
+    let elements_guard = interp.heap.create_guard();
+    for element in &elements {
+        if let JsValue::Object(obj) = element {
+            elements_guard.guard(obj.cheap_clone());
+        }
+    }
+
     if let Some(cmp) = compare_fn {
         if cmp.is_callable() {
             for i in 0..elements.len() {
